@@ -579,3 +579,86 @@ Proof.
       assert (Hg : sm_get m (pos_key a c) = Some v1) by (apply sm_get_in_sorted; [exact (proj1 Hm)|exact He]).
       congruence.
 Qed.
+
+(* ------------------------------------------------------------ Part 7: the keys of the closing entries (specification) *)
+
+Definition ekey (e : entry) : account * commodity := (snd (fst (fst e)), snd (fst e)).
+
+Section SpecKeys.
+  Variable posts : list (Z * posting).
+  Variable keys : list (account * commodity).
+
+  Definition specV (prev : Z) (sts : list Z) (S : Z) (k : account * commodity) : Q :=
+    qsum (fun dp => if (prev <=? fst dp)%Z && oz_eqb (nxt sts (fst dp)) (Some S) && keq (key_of dp) k
+                    then dvalue (p_qty (snd dp)) else 0) posts.
+
+  Lemma specV_head prev S rest k : StronglySorted Z.lt (S :: rest) ->
+    dvalue (sum_between posts k prev (S - 1)) == specV prev (S :: rest) S k.
+  Proof.
+    intros Hs. rewrite sum_between_value. apply qsum_ext. intros dp _.
+    inversion Hs as [|? ? _ Hall]; subst. rewrite Forall_forall in Hall.
+    assert (E : ((prev <=? fst dp) && (fst dp <=? S - 1))%Z = ((prev <=? fst dp)%Z && oz_eqb (nxt (S :: rest) (fst dp)) (Some S))).
+    { f_equal. unfold nxt. cbn [find]. destruct (fst dp <? S)%Z eqn:E1.
+      - cbn [oz_eqb]. rewrite Z.eqb_refl. lia.
+      - destruct (find (fun s => (fst dp <? s)%Z) rest) as [s2|] eqn:Ef; cbn [oz_eqb]; [|lia].
+        apply find_some in Ef. destruct Ef as [Hin _]. specialize (Hall _ Hin). lia. }
+    rewrite E. reflexivity.
+  Qed.
+
+  Lemma specV_tail prev S rest S' k : StronglySorted Z.lt (S :: rest) -> (prev <= S)%Z -> In S' rest ->
+    specV S rest S' k == specV prev (S :: rest) S' k.
+  Proof.
+    intros Hs Hp Hin. apply qsum_ext. intros dp _.
+    inversion Hs as [|? ? _ Hall]; subst. rewrite Forall_forall in Hall. specialize (Hall _ Hin).
+    assert (E : ((S <=? fst dp)%Z && oz_eqb (nxt rest (fst dp)) (Some S')) = ((prev <=? fst dp)%Z && oz_eqb (nxt (S :: rest) (fst dp)) (Some S'))).
+    { unfold nxt. cbn [find]. destruct (fst dp <? S)%Z eqn:E1.
+      - cbn [oz_eqb]. replace (S <=? fst dp)%Z with false by lia. replace (S =? S')%Z with false by lia.
+        rewrite andb_false_r. reflexivity.
+      - replace (S <=? fst dp)%Z with true by lia. replace (prev <=? fst dp)%Z with true by lia. reflexivity. }
+    rewrite E. reflexivity.
+  Qed.
+
+  Lemma spec_close_keys : forall ps prev ac,
+    StronglySorted Z.lt (map p_start ps) -> Forall (fun p => (prev <= p_start p)%Z) ps ->
+    ((exists e, In e (closing_entries posts keys prev ps) /\ ekey e = ac) <->
+     (exists p k, In p ps /\ In k keys /\ ~ specV prev (map p_start ps) (p_start p) k == 0
+                  /\ snd ac = snd k /\ (fst ac = fst k \/ fst ac = equity_account))).
+  Proof.
+    induction ps as [|p ps IH]; intros prev ac Hs Hall; cbn [closing_entries].
+    - split; [intros (e & [] & _)|intros (p & k & [] & _)].
+    - cbn [map] in Hs. inversion Hs as [|? ? Hs' Hlt]; subst. rewrite Forall_forall in Hlt.
+      inversion Hall as [|? ? Hp Hall']; subst.
+      assert (Hall2 : Forall (fun x => (p_start p <= p_start x)%Z) ps).
+      { rewrite Forall_forall. intros x Hx. assert (Hi : In (p_start x) (map p_start ps)) by (apply in_map; exact Hx).
+        specialize (Hlt _ Hi). lia. }
+      specialize (IH (p_start p) ac Hs' Hall2).
+      split.
+      + intros (e & He & Hk). apply in_app_or in He. destruct He as [He|He].
+        * apply in_concat in He. destruct He as (l & Hl & He). apply in_map_iff in Hl. destruct Hl as (k & <- & Hkin).
+          destruct (is_zero (sum_between posts k prev (p_start p - 1))) eqn:Ez; [destruct He|].
+          exists p, k. split; [left; reflexivity|]. split; [exact Hkin|]. split.
+          -- cbn [map]. rewrite <- (specV_head prev (p_start p) (map p_start ps) k Hs). intros H0.
+             apply is_zero_value in H0. congruence.
+          -- subst ac. destruct He as [<-|[<-|[]]]; unfold ekey; cbn [fst snd]; tauto.
+        * destruct (proj1 IH (ex_intro _ e (conj He Hk))) as (p' & k & Hp' & Hkin & Hnz & H1).
+          exists p', k. split; [right; exact Hp'|]. split; [exact Hkin|]. split; [|exact H1].
+          cbn [map]. rewrite <- (specV_tail prev (p_start p) (map p_start ps) (p_start p') k Hs Hp); [exact Hnz|].
+          apply in_map. exact Hp'.
+      + intros (p' & k & Hp' & Hkin & Hnz & H1 & H2). destruct Hp' as [<-|Hp'].
+        * cbn [map] in Hnz. rewrite <- (specV_head prev (p_start p) (map p_start ps) k Hs) in Hnz.
+          assert (Ez : is_zero (sum_between posts k prev (p_start p - 1)) = false).
+          { destruct (is_zero (sum_between posts k prev (p_start p - 1))) eqn:E; [|reflexivity].
+            exfalso. apply Hnz. apply is_zero_value. exact E. }
+          destruct ac as [a' c']. cbn [fst snd] in H1, H2. subst c'.
+          destruct H2 as [->| ->].
+          -- exists (p_end p, fst k, snd k, neg (sum_between posts k prev (p_start p - 1))). split; [|reflexivity].
+             apply in_or_app. left. apply in_concat. eexists. split; [apply in_map_iff; exists k; split; [reflexivity|exact Hkin]|].
+             cbn beta. rewrite Ez. left. reflexivity.
+          -- exists (p_end p, [s_Equity; s_Equity], snd k, sum_between posts k prev (p_start p - 1)). split; [|reflexivity].
+             apply in_or_app. left. apply in_concat. eexists. split; [apply in_map_iff; exists k; split; [reflexivity|exact Hkin]|].
+             cbn beta. rewrite Ez. right. left. reflexivity.
+        * cbn [map] in Hnz. rewrite <- (specV_tail prev (p_start p) (map p_start ps) (p_start p') k Hs Hp) in Hnz by (apply in_map; exact Hp').
+          destruct (proj2 IH (ex_intro _ p' (ex_intro _ k (conj Hp' (conj Hkin (conj Hnz (conj H1 H2))))))) as (e & He & Hk).
+          exists e. split; [apply in_or_app; right; exact He|exact Hk].
+  Qed.
+End SpecKeys.
